@@ -62,6 +62,11 @@ def inputs_for(plan, idx, tier, rng):
         for x in keep:
             x["heavy"] = True
         return keep
+    # small dictionary + long incompressible input: the window slides (move_window) while a chunk that will be stored
+    # uncompressed is pending; keep_size_before must cover the whole chunk (EncWindow!ChunkStaysInWindow)
+    if ds < 65536 and (idx % 3 == 0 or not quick):
+        out.append(dict(kind=["rand", "randmix"][idx % 2], n=(1 << 20) + 150000 + rng.randint(0, 5000), tag="slide-incompressible",
+                        heavy=True))
     if quick:
         fast = plan.get("mode") == "fast" or e in ("easy", "easy_buffer") and int(plan["preset"]) <= 3
         if idx % 8 == 0 and fast:
@@ -86,6 +91,30 @@ def inputs_for(plan, idx, tier, rng):
         for x in out:
             x["n"] = min(x["n"], (40 if ds < (1 << 24) else 12) * bs + 1)
     return out
+
+SRF_OK_ENTRIES = ("easy", "stream", "stream_mt", "block", "stream_buffer", "block_buffer", "raw2", "raw_buffer")
+
+def srf_jobs(plans, tier, rng, per_plan):
+    """Chunk-boundary adversary (EncWindow!UncompressedFits): for TLC plans that use the optimal parser, the start of the
+    look-ahead run F is swept over every position where an incompressible LZMA2 chunk can end (step 64 over
+    [59000, 66600]: the compressed limit minus any reserve up to the limit itself).  Plans are used as emitted except that
+    the dictionary is raised to hold S|F and the chain is plain LZMA2 (other filters destroy the match structure)."""
+    quick = tier == "quick"
+    elig = [p for p in plans if p["entry"] in SRF_OK_ENTRIES and p.get("mode") == "normal" and p.get("nice") in ("32", "273")
+            and not (p["entry"] == "stream_mt" and (p.get("mtpreset") or int(p.get("bsize", 0) or 0)))]
+    elig.sort(key=lambda p: (p.get("nice") != "273", p.get("mf") not in ("bt4", "hc4")))
+    chosen = elig[:3 if quick else 8]
+    jobs = []
+    for pi, p in enumerate(chosen):
+        q = dict(p, chain="lzma2", flush="none", update="none", history="fresh", pdict="no")
+        if q.get("dict") in ("4096", "8192", "4097", "16384", "32768"):
+            q["dict"] = "65536"
+        step = 64
+        off = rng.randrange(step)
+        tl = 5000; sl = ((tl - 8) // 4 + 1) * 12
+        for fstart in range(59000 + off, 66600, step):
+            jobs.append((q, dict(kind="srf", n=fstart + tl, period=fstart - sl, tag="chunk-boundary-sweep", heavy=True)))
+    return jobs
 
 def bias_values(n, ds, rng, quick, heavy=False):
     c = [b for b in (1000, 5000, 70000) if b < n]
@@ -135,6 +164,11 @@ def run_case(job):
                     except Exception as x:
                         ev["decodes"] = False
                 biases.append(ev)
+        if plan.get("history", "fresh") != "fresh" and getattr(R, "history", "fresh") != "fresh":
+            # the same run on a fresh handle
+            R3 = E.encode(dict(plan, history="fresh"), data, bias=0, seed=job["seed"])
+            res["encs"] += 1
+            biases.append({"e": "Fresh", "dig": E.dig(R3.out), "len": len(R3.out), "history": plan["history"]})
         res["nbias"] = len(biases)
         for k, x in enumerate(ex):
             label, fmt, evs, end = x
